@@ -813,4 +813,60 @@ example (k : Nat) :
   (linesearch_methods_monotone_lbfgs_modelled id 0 1 0 _ (fun x => by simp) [3, -1] 3 1 [] k).2.2
 end lbfgs
 
+/-! ## box-constrained L-BFGS: a line search along a feasible target keeps the iterate in the box -/
+
+/-- coordinate-wise `l ≤ x ≤ u` -/
+def InBox (l u x : Vec Rat) : Prop := ∀ i, i < x.length → l.getD i 0 ≤ x.getD i 0 ∧ x.getD i 0 ≤ u.getD i 0
+
+theorem backtrackGo_step_le (o : Objective Rat) (point dir : Vec Rat) (value gtd : Rat) :
+    ∀ (fuel : Nat) (t t' fnew : Rat) (gnew : Vec Rat), 0 ≤ t →
+      backtrackGo o point dir value gtd fuel t = some (t', fnew, gnew) → t' ≤ t := by
+  intro fuel
+  induction fuel with
+  | zero => intro t t' fnew gnew _ h; simp [backtrackGo] at h
+  | succ k ih =>
+    intro t t' fnew gnew ht h
+    unfold backtrackGo at h
+    simp only at h
+    split at h
+    · simp only [Option.some.injEq, Prod.mk.injEq] at h
+      obtain ⟨rfl, -, -⟩ := h
+      exact le_refl _
+    · have hh : (0 : Rat) ≤ t * Scalar.half := by simp only [Scalar.half, Scalar.ofRat]; positivity
+      have := ih _ _ _ _ hh h
+      have h2 : t * (Scalar.half : Rat) ≤ t := by simp only [Scalar.half, Scalar.ofRat]; linarith
+      linarith
+
+/-- **box_linesearch_feasible.**  If `x` is in the box, the target `x + d` of the search direction is in the box
+(what `box_direction_feasible_repaired` / `box_direction_feasible_partial` prove for `getBoxConstrainedDirection`) and the
+initial step length is in `[0, 1]` (`m_initialStepLength = 1` after the first step), then the point returned by the
+backtracking line search — the only line search `init` allows on a constrained objective — is in the box, exactly:
+it is `x + t'·d` with `0 ≤ t' ≤ 1`, a convex combination of `x` and `x + d`. -/
+theorem box_linesearch_feasible (o : Objective Rat) (l u x d g : Vec Rat) (v t : Rat) (hd : d.length = x.length)
+    (hx : InBox l u x) (hxd : InBox l u (Vec.axpy x 1 d)) (ht0 : 0 ≤ t) (ht1 : t ≤ 1) :
+    InBox l u (backtracking o x v d g t).point := by
+  unfold backtracking
+  simp only
+  split
+  · next t' fnew gnew h =>
+    have h0 := backtrackGo_step_nonneg o x d v _ _ _ _ _ _ ht0 h
+    have h1 := le_trans (backtrackGo_step_le o x d v _ _ _ _ _ _ ht0 h) ht1
+    intro i hi
+    have hlen : (Vec.axpy x t' d).length = x.length := axpy_length _ _ _ hd
+    have hix : i < x.length := by rw [← hlen]; exact hi
+    have hid : i < d.length := by rw [hd]; exact hix
+    have hi1 : i < (Vec.axpy x 1 d).length := by rw [axpy_length _ _ _ hd]; exact hix
+    have e1 : (Vec.axpy x t' d).getD i 0 = x.getD i 0 + t' * d.getD i 0 := by
+      show (List.zipWith (fun a b => a + t' * b) x d).getD i 0 = _
+      rw [getD_zipWith_of_lt _ _ _ _ hix hid, getD_of_lt _ _ hix, getD_of_lt _ _ hid]
+    have e2 : (Vec.axpy x 1 d).getD i 0 = x.getD i 0 + 1 * d.getD i 0 := by
+      show (List.zipWith (fun a b => a + 1 * b) x d).getD i 0 = _
+      rw [getD_zipWith_of_lt _ _ _ _ hix hid, getD_of_lt _ _ hix, getD_of_lt _ _ hid]
+    have a := hx i hix
+    have b := hxd i hi1
+    rw [e2] at b
+    rw [e1]
+    constructor <;> nlinarith [a.1, a.2, b.1, b.2]
+  · exact hx
+
 end SharkVerif.C10
